@@ -4,7 +4,7 @@ let () =
   let engine = Sys.argv.(1) and path = Sys.argv.(2) in
   (match engine with
    | "sketch" -> R_sketch.run path
-   | "seq" -> R_seq.run path
+   | "seq" | "maint" -> R_seq.run path
    | _ -> prerr_endline ("unknown engine " ^ engine); exit 2);
   Util.print_stats ();
   Printf.printf "RESULT mismatches=%d propfails=%d\n" !Util.mismatches !Util.propfails
